@@ -237,6 +237,73 @@ def rule_SB4(rep, prog):
                 sample={"width": [arg_const(fn, c, 2) for c in qi]})
 
 
+def rule_TB6(rep, prog, q):
+    from .C13 import linform
+    rid = rep.rule("C15-TB6", "barrier release balances barrier acquisition: every caller of _dispatch_lane_class_barrier_complete gives back "
+                   "IN_BARRIER + width * WIDTH_INTERVAL (for a source, whose width is 1: IN_BARRIER + WIDTH_INTERVAL) - exactly what taking the barrier "
+                   "(WIDTH_FULL_BIT | IN_BARRIER from the idle state) added", floor=2)
+    n = 0
+    for fn in prog.all_functions():
+        for c in calls_named(fn, "_dispatch_lane_class_barrier_complete"):
+            n += 1
+            rep.saw(fn)
+            a = c.ops[4]
+            if a[0] == "c":
+                ok = a[1] == q.IN_BARRIER + q.WIDTH_INTERVAL
+                got = "%#x" % a[1]
+            else:
+                lf = linform(fn, a)
+                muls = [k_ for k_, v in lf.items() if isinstance(k_, tuple) and k_[0] == "i" and v == 1 and fn.insts[k_[1]].op in ("mul", "shl")]
+                ok = lf.get(1) == q.IN_BARRIER and len(lf) == 2 and len(muls) == 1
+                if ok:
+                    m = fn.insts[muls[0][1]]
+                    kk = [o for o in m.ops if o[0] == "c"]
+                    wl = [o for o in m.ops if o[0] != "c"]
+                    ok = bool(kk) and bool(wl) and (kk[0][1] == q.WIDTH_INTERVAL if m.op == "mul" else (1 << kk[0][1]) == q.WIDTH_INTERVAL)
+                    src_ = fn.inst(wl[0]) if wl else None
+                    while src_ is not None and src_.op in ("zext", "sext", "trunc"):
+                        src_ = fn.inst(src_.ops[0])
+                    ok = ok and src_ is not None and src_.op == "load" and "dq_width" in prog.fields(src_)
+                got = str({str(k_): v for k_, v in lf.items()})
+            rep.require(rid, ok, c.loc, fn.name, "barrier-release-unbalanced:%s" % fn.name,
+                        "%s completes a barrier giving back %s instead of IN_BARRIER + width * WIDTH_INTERVAL: the queue's width field never returns to its idle value, so "
+                        "the lane (for _dispatch_queue_wakeup: the dispatch source whose handler was just replaced) is never runnable again and every later merge stays "
+                        "undelivered" % (fn.name, got), sample={"site": c.loc, "owned": got})
+    if n < 2:
+        rep.unknown(rid, "fewer than 2 callers of _dispatch_lane_class_barrier_complete found (%d)" % n)
+
+
+def rule_MP7(rep, prog):
+    rid = rep.rule("C15-MP7", "scheduling sees what merging stores: the `is anything pending` tests of _dispatch_source_wakeup and _dispatch_source_invoke2 look at the "
+                   "whole 64-bit ds_pending_data word that dispatch_source_merge_data updates (no mask, no truncation) - a value whose low half is zero still gets "
+                   "the source woken and delivered", floor=3)
+    n = 0
+    for name in ("_dispatch_source_wakeup", "_dispatch_source_invoke2"):
+        fn = prog.fn(name)
+        rep.saw(fn)
+        for t in fn.all_insts():
+            if t.op != "icmp" or t.d["pred"] not in ("eq", "ne"):
+                continue
+            for a, b in ((t.ops[0], t.ops[1]), (t.ops[1], t.ops[0])):
+                if not (b[0] == "c" and b[1] == 0):
+                    continue
+                i = fn.inst(a)
+                narrowed = []
+                while i is not None and i.op in ("and", "trunc", "zext", "sext", "lshr", "shl"):
+                    if i.op in ("and", "trunc", "lshr", "shl"):
+                        narrowed.append(i.op)
+                    i = fn.inst(i.ops[0])
+                if i is None or i.op != "load" or "ds_pending_data" not in prog.fields(i):
+                    continue
+                n += 1
+                rep.require(rid, not narrowed and (i.d.get("w") or 64) == 64, t.loc, fn.name, "pending-test-on-part-of-word:%s" % fn.name,
+                            "%s decides whether the source has pending data from only part of ds_pending_data (%s): a merged value with no bits in that part (an OR mask "
+                            "using bits 32 and up, an ADD that is a multiple of 2^32) never makes the source runnable - the data is stranded until an unrelated merge"
+                            % (fn.name, "/".join(narrowed) or "narrow load"), sample={"test": t.loc})
+    if n < 3:
+        rep.unknown(rid, "fewer than 3 pending-data tests found in the source's wakeup / invoke functions (%d)" % n)
+
+
 def run(rep, tier="quick", srcdir=None, only=None):
     prog, units = load(UNITS, tier, srcdir)
     rep.units = units
@@ -251,6 +318,10 @@ def run(rep, tier="quick", srcdir=None, only=None):
         rule_SB4(rep, prog)
     if want("C15-TB5"):
         rule_TB5(rep, prog, srcdir)
+    if want("C15-TB6"):
+        rule_TB6(rep, prog, Q(srcdir))
+    if want("C15-MP7"):
+        rule_MP7(rep, prog)
     if want("C06-AI3"):
         # "merges made while the source is suspended are delivered after the matching resume": a source is a lane, its suspension accounting is the
         # queue's (shared with C06)
@@ -271,7 +342,7 @@ def run(rep, tier="quick", srcdir=None, only=None):
 
 
 MANIFEST = {
-    "technique": "atomic-site shape rules, who-may-write census, switch/table agreement and path-sensitive must-pass rules over the LLVM IR of source.c",
+    "technique": "atomic-site shape rules, who-may-write census, switch/table agreement and path-sensitive must-pass rules over the LLVM IR of source.c + constant / linear-form agreement of every barrier completion with the barrier acquisition, full-width rule on the pending-data tests",
     "level": "producer side (one atomic RMW of the right kind + MAKE_DIRTY wakeup), consumer side (single exchange, non-zero, re-check after the handler, only on "
              "the target queue), writer census of ds_pending_data and non-truncation of the delivered value are decided for all merge/handler interleavings; the "
              "sum/union identity rests on atomicity of the RMW operations (trusted) and on C01/C02 for wakeup and drain-lock correctness",
